@@ -211,6 +211,14 @@ def histories(case, tier="quick"):
                                                  cfg["machines"]]))
     hs = [("after-a-run-on-other-machine-speeds", [faster], {}),
           ("after-an-abandoned-run", [dict(plain, runtime=2)], {})]
+    if plain.get("alg", {}).get("kind") == "batch":
+        a = plain["alg"]
+        other = dict(a, p=1 if a.get("p", 1) != 1 else 2,
+                     min=1 if a.get("min", 1) != 1 else 2)
+        M = len(cfg["machines"])
+        if M // other["p"] >= other["min"]:
+            hs.append(("after-a-batch-run-with-other-partitioning",
+                       [dict(plain, alg=other)], {}))
     # the same file names with other content earlier in the process: every
     # workflow gets one more unit of compute per node in the earlier run
     edited = dict(plain, fixed_paths=True, wfs={
